@@ -364,7 +364,9 @@ func CreateDB(dbName string) error {
 		return ErrDBExists
 	}
 
-	fs, err := newFileStore(path, true)
+	// no background flusher: nothing else uses this store while the catalog
+	// is being built, and it is flushed and closed before returning
+	fs, err := newFileStore(path, false)
 	if err != nil {
 		return err
 	}
